@@ -102,4 +102,6 @@ package redis
 //@   loop 0 invariant neg == (b[0] == 45)
 //@   loop 0 unfold alldig(str(b), entry(i), i+1)
 //@   loop 0 unfold decacc(str(b), entry(i), i+1)
+//@   loop 0 unfold alldig(str(b), entry(i), i)
+//@   loop 0 unfold decacc(str(b), entry(i), i)
 //@   loop 0 decreases len(b) - i
